@@ -32,6 +32,8 @@ mod put_validation;
 mod python;
 mod quote;
 mod replication;
+#[cfg(feature = "verif-hooks")]
+pub mod verif;
 
 pub use self::{
     event::{NodeEvent, NodeEventsChannel, NodeEventsReceiver},
